@@ -364,9 +364,34 @@ func c14BadFrames(r *R) {
 	b.Sink("sink")
 	vsimrt.Settle()
 	vsimrt.SetTag(1)
+	// before the well-behaved fake peer: in some runs a client that misbehaves during the handshake; the acceptor must go on
+	// accepting afterwards
+	if bad := r.Choose(6); bad > 0 {
+		kinds := []string{"", "connects and closes", "garbage instead of a handshake", "half a handshake, then silence", "handshake with length zero", "handshake with an absurd length"}
+		r.Count("fault:bad-handshake " + kinds[bad])
+		if bc, err := nw.InjectRaw(c14AddrB); err == nil {
+			switch bad {
+			case 2:
+				_, _ = bc.Write([]byte("GET / HTTP/1.1\r\nHost: x\r\n\r\n"))
+			case 3:
+				_, _ = bc.Write([]byte{0, 0})
+				vsimrt.SettleFor(300 * time.Millisecond)
+			case 4:
+				_, _ = bc.Write([]byte{0, 0, 0, 0})
+			case 5:
+				_, _ = bc.Write([]byte{0x7f, 0xff, 0xff, 0xff, 1, 2, 3})
+			}
+			vsimrt.SettleFor(50 * time.Millisecond)
+			_ = bc.Close()
+			vsimrt.SettleFor(200 * time.Millisecond)
+		}
+		if r.Failed() {
+			return
+		}
+	}
 	conn, err := nw.InjectRaw(c14AddrB)
 	if err != nil {
-		r.Fail("C14/harness", "fake peer dial: %v", err)
+		r.Fail("C14/no-new-connection-after-bad-handshake", "after a client that misbehaved during the handshake the acceptor refuses new connections: %v", err)
 		return
 	}
 	// handshake: 4-byte length + advertised address, then read the reply
